@@ -449,44 +449,46 @@ theorem core_getIdle (h : Inv s) (e : Nat) (pick : Option Nat) : Inv (stepCore s
   simp only [stepCore, stepCoreG]
   split
   · split
-    · exact finish_err h _
+    · exact inv_setCaller h _ _
     · split
+      · exact finish_err h _
       · split
-        · exact inv_setCaller h _ _
-        · exact h
-      · rename_i c
-        split
-        · rename_i hin
-          have hcc := h.conn c
-          simp only [ConnOK, COK] at hcc
-          have hi := hcc.2.2.2.2.1 hin
-          have htc := h.tcl
-          skip
+        · split
+          · exact inv_setCaller h _ _
+          · exact h
+        · rename_i c
           split
-          · -- closed: forget
-            refine ⟨h.fault, h.ok, h.tcl, ?_, h.chan⟩
-            intro c'
-            by_cases hc : c' = c
-            · subst hc; simp [ConnOK, COK, WOK, hi] at *; grind
-            · simpa [ConnOK, hc] using h.conn c'
-          · split
-            · simp_all
+          · rename_i hin
+            have hcc := h.conn c
+            simp only [ConnOK, COK] at hcc
+            have hi := hcc.2.2.2.2.1 hin
+            have htc := h.tcl
+            skip
+            split
+            · -- closed: forget
+              refine ⟨h.fault, h.ok, h.tcl, ?_, h.chan⟩
+              intro c'
+              by_cases hc : c' = c
+              · subst hc; simp [ConnOK, COK, WOK, hi] at *; grind
+              · simpa [ConnOK, hc] using h.conn c'
             · split
-              · refine ⟨h.fault, h.ok, h.tcl, ?_, h.chan⟩
-                intro c'
-                by_cases hc : c' = c
-                · subst hc; simp [ConnOK, COK, WOK, hi] at *; grind
-                · simpa [ConnOK, hc] using h.conn c'
+              · simp_all
               · split
-                · simp_all
-                · refine ⟨h.fault, ?_, ?_, ?_, h.chan⟩
-                  · simp [h.ok]; grind
-                  · simp [h.tcl]
-                  · intro c'
-                    by_cases hc : c' = c
-                    · subst hc; simp [ConnOK, COK, WOK, hi] at *; grind
-                    · simpa [ConnOK, hc] using h.conn c'
-        · exact h
+                · refine ⟨h.fault, h.ok, h.tcl, ?_, h.chan⟩
+                  intro c'
+                  by_cases hc : c' = c
+                  · subst hc; simp [ConnOK, COK, WOK, hi] at *; grind
+                  · simpa [ConnOK, hc] using h.conn c'
+                · split
+                  · simp_all
+                  · refine ⟨h.fault, ?_, ?_, ?_, h.chan⟩
+                    · simp [h.ok]; grind
+                    · simp [h.tcl]
+                    · intro c'
+                      by_cases hc : c' = c
+                      · subst hc; simp [ConnOK, COK, WOK, hi] at *; grind
+                      · simpa [ConnOK, hc] using h.conn c'
+          · exact h
   · exact h
 
 theorem foldl_cl (l : List Nat) (m : Mon) :
